@@ -5,6 +5,7 @@ import (
 	"errors"
 	"fmt"
 	"math/big"
+	"sync"
 
 	"github.com/vipnode/vipnode/v2/pool"
 	"github.com/vipnode/vipnode/v2/pool/store"
@@ -49,6 +50,10 @@ type PaymentService struct {
 	WithdrawFee func(*big.Int) *big.Int
 	// WithdrawMin (optional) is the minimum amount required to allow a withdraw.
 	WithdrawMin *big.Int
+
+	// withdrawMu serializes withdrawals, so that two requests for the same
+	// wallet cannot both settle the same balance.
+	withdrawMu sync.Mutex
 }
 
 func (p *PaymentService) verify(sig string, method string, wallet string, nonce int64, args ...interface{}) error {
@@ -108,6 +113,9 @@ func (p *PaymentService) Withdraw(ctx context.Context, sig string, wallet string
 	if p.Settle == nil {
 		return ErrWithdrawDisabled
 	}
+
+	p.withdrawMu.Lock()
+	defer p.withdrawMu.Unlock()
 
 	account := store.Account(wallet)
 	balance, err := p.BalanceStore.GetAccountBalance(account)
